@@ -2,7 +2,7 @@
 from pylatexenc.macrospec import (LatexContextDb, MacroSpec, EnvironmentSpec, SpecialsSpec,
                                   LatexEnvironmentBodyContentsParser)
 from pylatexenc.latexnodes import (LatexArgumentSpec, ParsingStateDeltaEnterMathMode,
-                                   ParsingStateDeltaLeaveMathMode)
+                                   ParsingStateDeltaLeaveMathMode, ParsingStateDelta, ParsingStateDeltaChained)
 from pylatexenc.latexnodes.parsers import (LatexStandardArgumentParser, LatexVerbatimEnvironmentContentsParser)
 import pylatexenc.latexnodes.parsers as _parsers_pkg
 import sys
@@ -40,6 +40,10 @@ def make_ctx_s(unknown=False, small=False):
     macros += [
         MacroSpec('t', arguments_spec_list=[LatexArgumentSpec('{', parsing_state_delta=ParsingStateDeltaLeaveMathMode())]),
         MacroSpec('m', arguments_spec_list=[LatexArgumentSpec('{', parsing_state_delta=ParsingStateDeltaEnterMathMode())]),
+        # a text-mode argument followed by an inheriting one; a math-mode argument followed by optional + inheriting ones
+        MacroSpec('u', arguments_spec_list=[LatexArgumentSpec('{', parsing_state_delta=ParsingStateDeltaLeaveMathMode()), '{']),
+        MacroSpec('w', arguments_spec_list=[LatexArgumentSpec('{', parsing_state_delta=ParsingStateDeltaEnterMathMode()),
+                                            '[', '{']),
         MacroSpec('\\', arguments_spec_list=[
             LatexArgumentSpec('*'),
             LatexArgumentSpec(LatexStandardArgumentParser('[', allow_pre_space=False))]),
@@ -48,6 +52,9 @@ def make_ctx_s(unknown=False, small=False):
         EnvironmentSpec('E'),
         EnvironmentSpec('F', arguments_spec_list=['[', '{']),
         EnvironmentSpec('M', body_parsing_state_delta=ParsingStateDeltaEnterMathMode()),
+        # math body through a chained delta whose math switch is not the last element
+        EnvironmentSpec('N', body_parsing_state_delta=ParsingStateDeltaChained([
+            ParsingStateDeltaEnterMathMode(), ParsingStateDelta(set_attributes=dict(enable_specials=True))])),
         EnvironmentSpec('V', make_body_parser=lambda token, nodeargd, arg_parsing_state_delta:
                         LatexVerbatimEnvironmentContentsParser(environment_name='V')),
     ]
